@@ -11,7 +11,7 @@ import DustVerif.Model.Key
   Member names are a function of the member id (harness: `m<id>`), so the name rules never fire.
 * `project tr tw v` is what a reader with type `tr` should see of the writer's value `v : tw`: common members keep
   their value, members only the reader has are without value.
-* `evolves ver tr tw` (decidable) is the evolution relation the theorem `C39_project_partial` covers: appendable
+* `evolves tr tw` (decidable) is the evolution relation the theorem `C39_project_partial` covers: appendable
   structures that differ by members at the end, mutable structures with members added / removed / reordered.
 * decoding with the reader's type is `deTop cfg tr (serTop cfg ver e tw v)`: the decoder of `Model/Xcdr.lean` is
   driven by the type it is given, exactly like `deserialize_top_level_type(reader_type, bytes)`.
